@@ -28,6 +28,10 @@ type gridCase struct {
 	Acts    []gact `json:"acts"`
 	Horizon int64  `json:"horizon_ms"`
 	Pattern string `json:"pattern,omitempty"`
+	// PrevN > 0: the session was logged on before with heartbeat interval PrevN, the peer logged out
+	// and logs on again with N on the same connection; action times and the horizon count from the
+	// second logon
+	PrevN int `json:"prev_n,omitempty"`
 }
 
 type gridObs struct {
@@ -44,7 +48,20 @@ type gridObs struct {
 func gridRun(c gridCase) (o gridObs, sig, detail string) {
 	w := newWorld(wcfg{Role: c.Role, Buf: 10, HbMin: 1, HbMax: 100, HbInt: c.N})
 	o.discAt, o.stoppedAt = -1, -1
-	o.logonAt = vsched.NowOffset()
+	if c.PrevN > 0 {
+		w.logonOK(c.PrevN)
+		if !w.s.IsLogged() {
+			return o, "setup:not-logged", ""
+		}
+		time.Sleep(100 * time.Millisecond)
+		w.in(w.msg("5"))
+		if w.s.IsLogged() {
+			return o, "setup:still-logged-after-logout", ""
+		}
+		time.Sleep(100 * time.Millisecond)
+	}
+	base := vsched.NowOffset()
+	o.logonAt = base
 	w.logonOK(c.N)
 	if !w.s.IsLogged() {
 		return o, "setup:not-logged", ""
@@ -56,7 +73,7 @@ func gridRun(c gridCase) (o gridObs, sig, detail string) {
 		o.stoppedAt = vsched.NowOffset()
 	}()
 	for _, a := range c.Acts {
-		vsched.SleepUntil(time.Duration(a.AtMs) * time.Millisecond)
+		vsched.SleepUntil(base + time.Duration(a.AtMs)*time.Millisecond)
 		if w.runDone {
 			break
 		}
@@ -76,9 +93,13 @@ func gridRun(c gridCase) (o gridObs, sig, detail string) {
 		}
 		vsched.Settle()
 	}
-	vsched.SleepUntil(time.Duration(c.Horizon) * time.Millisecond)
+	vsched.SleepUntil(base + time.Duration(c.Horizon)*time.Millisecond)
 	vsched.Settle()
-	o.outs = append([]outMsg{}, w.outs...)
+	for _, m := range w.outs {
+		if m.At >= base { // the timeline starts with the answer to the (last) logon
+			o.outs = append(o.outs, m)
+		}
+	}
 	if w.ctxDone {
 		o.discAt = w.ctxDoneAt
 	}
@@ -301,8 +322,8 @@ func runGrid(R *vlib.Out, prop string) {
 		}
 		out := fmt.Sprintf("hb=%d tr=%d disc=%v", nhb, ntr, o.discAt >= 0)
 		R.Outcome(out)
-		R.State(fmt.Sprintf("%s/%d/%v/%s", c.Role, c.N, c.Acts, c.Pattern))
-		R.ClassU(fmt.Sprintf("%s/%d/%s/%s/%v", c.Role, c.N, out, c.Pattern, kinds(c.Acts)))
+		R.State(fmt.Sprintf("%s/%d/%v/%s/%d", c.Role, c.N, c.Acts, c.Pattern, c.PrevN))
+		R.ClassU(fmt.Sprintf("%s/%d/%s/%s/%v/%d", c.Role, c.N, out, c.Pattern, kinds(c.Acts), c.PrevN))
 		R.Sample(5, c)
 		if sig != "" {
 			R.Violate(sig, fmt.Sprintf("%+v: %s", c, d), c)
@@ -389,6 +410,40 @@ func runGrid(R *vlib.Out, prop string) {
 				}
 				for k := 1; k <= 3; k++ {
 					if !try(gridCase{Role: role, N: N, Acts: []gact{{t, k}, {t, k}, {t, (k % 3) + 1}}, Horizon: horizon, Pattern: "burst"}) {
+						return
+					}
+				}
+			}
+			// a second logon on the same connection (after a Logout) with the same, a smaller and a larger
+			// interval than the first: silence, every single action on the grid, steady traffic
+			prevs := []int{N, 1, 60} // the previous interval: the same, a smaller and a larger one
+			if N == 1 {
+				prevs = []int{1, 7, 60}
+			} else if N == 60 {
+				prevs = []int{60, 1, 7}
+			}
+			for _, prev := range prevs {
+				if !try(gridCase{Role: role, N: N, PrevN: prev, Horizon: horizon, Pattern: "relogon"}) {
+					return
+				}
+				rg := grid
+				if *vlib.Tier != "thorough" {
+					rg = gridPoints(N, true) // multiples of the polling period and the deadlines +-1 ms
+				}
+				for _, t := range rg {
+					for k := 1; k <= nKinds; k++ {
+						if !try(gridCase{Role: role, N: N, PrevN: prev, Acts: []gact{{t, k}}, Horizon: horizon, Pattern: "relogon"}) {
+							return
+						}
+					}
+				}
+				Nms := int64(N) * 1000
+				for _, kind := range []int{1, 2} {
+					var acts []gact
+					for t := Nms - Nms/10; t <= 4*Nms; t += Nms - Nms/10 {
+						acts = append(acts, gact{t, kind})
+					}
+					if !try(gridCase{Role: role, N: N, PrevN: prev, Acts: acts, Horizon: 4*Nms + horizon, Pattern: "relogon-steady"}) {
 						return
 					}
 				}
